@@ -73,6 +73,11 @@ ScheduleIndependent ==
 \* origin shift - all of which only READ the table) changes an entry
 TableStable == [][\A k \in DOMAIN table : table'[k] = table[k]]_vars
 ShiftScheduleIndependent == ndone = NP => \A k \in 0..(NP - 1) : oidx[k] = k
+\* the centre of mass does not depend on the intensity scale: k * I has the centre of mass of I (k-fold numerator AND
+\* k-fold denominator) - an estimator that floors, clamps or offsets the denominator is not scale free
+ScaledCom(p, k) == << <<k * SumOver(Det, p, "row"), k * Total(p)>>, <<k * SumOver(Det, p, "col"), k * Total(p)>> >>
+ScaleFree == ndone = NP => \A k \in 0..(NP - 1) : \A f \in {2, 3, 1024} :
+               REq(ScaledCom(PatOf(k), f)[1], table[k][1]) /\ REq(ScaledCom(PatOf(k), f)[2], table[k][2])
 \* the centre of mass lies inside the detector (sanity of the transcription)
 InsideDetector ==
   \A k \in DOMAIN table : /\ table[k][1][1] >= 0 /\ table[k][1][1] <= (DR - 1) * table[k][1][2]
